@@ -168,6 +168,11 @@ func TestMerge(t *testing.T) {
 			if k == "osargs" {
 				osargsUsed = true
 			}
+			if k == "raw" && ns <= 4 && rapid.IntRange(0, 11).Draw(t, "garbage") == 0 {
+				// a document the binder cannot read: the start reports it - or, if it goes on, drops nothing else
+				srcs[i] = source{Kind: "garbage", Leaves: map[string]any{}}
+				continue
+			}
 			srcs[i] = source{Kind: k, Leaves: map[string]any{}}
 			for _, p := range schema {
 				if rapid.IntRange(0, 2).Draw(t, "has") > 0 {
@@ -208,6 +213,8 @@ func TestMerge(t *testing.T) {
 		mkLoader := func(i int) configure.Loader {
 			s := srcs[i]
 			switch s.Kind {
+			case "garbage":
+				return loader.NewRawLoader([]byte("c15: [unclosed\n\tbad: : :\n"))
 			case "raw":
 				b, _ := yaml.Marshal(nest(s.Leaves))
 				return loader.NewRawLoader(b)
@@ -308,6 +315,16 @@ func TestMerge(t *testing.T) {
 				ss = append(ss, s.String())
 			}
 			desc := fmt.Sprintf("sources %s script %v round %d", strings.Join(ss, " | "), script, round)
+			garbageAttached := false
+			for _, i := range list {
+				if i >= 0 && srcs[i].Kind == "garbage" {
+					garbageAttached = true
+				}
+			}
+			if garbageAttached && out.Panic == nil && out.Err != nil {
+				kit.Rec.Case(desc, false, "unreadable-document-reported")
+				continue
+			}
 			if !out.OK() {
 				t.Fatalf("C15: start failed: %v\n%s", out, desc)
 			}
